@@ -258,6 +258,11 @@ func processPoints(points []Point, closed bool) (
 		} else if i == len(points)-2 {
 			b = points[i+1]
 			c = points[0]
+			if b == c {
+				// repeated closing point: the turn at the first point
+				// continues on to the second point
+				c = points[1]
+			}
 		} else {
 			b = points[i+1]
 			c = points[i+2]
